@@ -369,10 +369,10 @@ Proof.
   - destruct e; try discriminate Es; cbn [step] in H.
     + destruct (conn_open s) eqn:Eo; [discriminate H|]. injection H as <-.
       apply SC_new; [reflexivity|apply conn_open_false, Eo|reflexivity].
+    + apply SC_clo, H.
+    + apply SC_clo, H.
     + unfold guard in H. destruct (conn_open s) eqn:Eo; [|discriminate H]. injection H as <-.
       apply SC_closereq; auto.
-    + apply SC_clo, H.
-    + apply SC_clo, H.
     + apply SC_closed; [reflexivity|exact H].
     + unfold guard in H. destruct (quiescent s) eqn:Eo; [|discriminate H]. injection H as <-.
       apply SC_quiet; auto.
